@@ -15,7 +15,8 @@ RULE = ("A program of NumPy-style operations over a pool of values, run on the r
         "column reversal, [rows, column] where every selected row is long enough, == / != with a character, with a string of the row's length "
         "and with an equally shaped array, item assignment on a copy in the three forms the code base uses ([rows, int] = char, [int] = string of "
         "equal length, [row slice, col slice] = ragged of equal shape), np.concatenate, copy, ravel, to_string / tolist, and strops split / join / "
-        "str_equal. Oracle: after every step the result decodes to the model value, the result has the operand's encoding, and assignment to a "
+        "str_equal. A quarter of the programs run on a two-dimensional EncodedArray (rows of equal length): row and column selection by slice, mask and "
+        "integer list, single cells, ravel, copy, comparison with a character, concatenation. Oracle: after every step the result decodes to the model value, the result has the operand's encoding, and assignment to a "
         "copy leaves the original equal to its model. Non-trivial: >= 2 steps where a view-producing step precedes another step, on a list "
         "containing an empty row or rows of unequal length.")
 ASSUMPTIONS = [
@@ -24,7 +25,7 @@ ASSUMPTIONS = [
     "Indices are generated in range; column selections only when every selected row is long enough.",
 ]
 REQUIRED_CLASSES = ["view-then-op", "empty-row", "unequal-rows", "single-row", "setitem", "concat", "compare-array", "split-join", "negative-index",
-                    "empty-selection"]
+                    "empty-selection", "two-dimensional", "fancy-columns-then-ravel"]
 BOUNDS = {"quick": "1500 programs of up to 12 steps for each of 4 encodings, lists of up to 6 strings of length up to 8",
           "thorough": "12000 programs of up to 30 steps per encoding, lists of up to 12 strings of length up to 20"}
 BUDGET_S = {"quick": 200, "thorough": 1500}
@@ -88,11 +89,11 @@ def run(case, on_step=None):
     kinds = ["ragged"]
     failures = []
 
-    def push(real, model, op, check_encoding=True, keep=True):
+    def push(real, model, op, check_encoding=True, keep=True, kind=None):
         if keep:
             reals.append(real)
             models.append(model)
-            kinds.append("bool" if not check_encoding else ("flat" if isinstance(model, str) else "ragged"))
+            kinds.append(kind or ("bool" if not check_encoding else ("flat" if isinstance(model, str) else "ragged")))
         got = observe(real)
         if model == "" and got == []:
             got = ""          # an empty array has no text either way
@@ -101,6 +102,13 @@ def run(case, on_step=None):
         elif check_encoding and hasattr(real, "encoding") and real.encoding != enc:
             failures.append(Failure(f"C07:result-encoding:{op['op']}", {"op": op, "encoding": repr(real.encoding)}))
 
+    if case.get("matrix"):
+        # a two-dimensional encoded array: the rows cut to a common length (at least 1)
+        rows_ = [m for m in case["init"] if m]
+        if rows_:
+            L0 = min(len(m) for m in rows_)
+            mrows = [m[:L0] for m in rows_]
+            push(bnp.as_encoded_array(mrows, enc).to_numpy_array(), mrows, {"op": "to_matrix"}, kind="matrix")
     for op in case["program"]:
         name = op["op"]
         # choose an operand of the right kind, deterministically from op["src"]
@@ -268,6 +276,54 @@ def run(case, on_step=None):
                     push(strops.split(R, sep=","), M.split(","), op)
                 else:
                     continue
+            if want == "matrix":
+                W = len(M[0]) if M else 0
+                if name == "m_row_int":
+                    if n:
+                        i = norm_index(op["i"], n)
+                        push(R[i], M[i], op)
+                elif name == "m_rows":
+                    how = op["how"]
+                    if how == "slice":
+                        sl = slice(op.get("a"), op.get("b"), op.get("s"))
+                        push(R[sl], M[sl], op, kind="matrix")
+                    elif how == "mask":
+                        bits = [bool(op["bits"][k % len(op["bits"])]) for k in range(n)]
+                        push(R[np.array(bits, dtype=bool)], [m for m, b in zip(M, bits) if b], op, kind="matrix")
+                    elif n:
+                        idx = [norm_index(k, n) for k in op["idx"]]
+                        push(R[np.array(idx, dtype=int)], [M[k] for k in idx], op, kind="matrix")
+                elif name == "m_cols":
+                    how = op["how"]
+                    if how == "slice":
+                        sl = slice(op.get("a"), op.get("b"), op.get("s"))
+                        push(R[:, sl], [m[sl] for m in M], op, kind="matrix")
+                    elif how == "mask":
+                        bits = [bool(op["bits"][k % len(op["bits"])]) for k in range(W)]
+                        push(R[:, np.array(bits, dtype=bool)], ["".join(ch for ch, b in zip(m, bits) if b) for m in M], op, kind="matrix")
+                    elif W:
+                        idx = [norm_index(k, W) for k in op["idx"]]
+                        push(R[:, np.array(idx, dtype=int)], ["".join(m[k] for k in idx) for m in M], op, kind="matrix")
+                elif name == "m_cell":
+                    if n and W:
+                        i, j = norm_index(op["i"], n), norm_index(op["j"], W)
+                        push(R[i, j], M[i][j], op, keep=False)      # a 0-d result is observed but not used as an operand
+                elif name == "m_ravel":
+                    push(R.ravel(), "".join(M), op)
+                elif name == "m_copy":
+                    push(R.copy(), list(M), op, kind="matrix")
+                elif name == "m_eq_char":
+                    c = alphabet[op["c"] % len(alphabet)]
+                    res = (R != c) if op.get("ne") else (R == c)
+                    push(np.asarray(res), [[(ch != c) if op.get("ne") else (ch == c) for ch in m] for m in M], op, check_encoding=False)
+                elif name == "m_concat":
+                    cands2 = [i2 for i2, k2 in enumerate(kinds) if k2 == "matrix" and models[i2] and M and len(models[i2][0]) == W]
+                    if cands2:
+                        s2 = cands2[op["src2"] % len(cands2)]
+                        push(np.concatenate([R, reals[s2]]), M + models[s2], op, kind="matrix")
+                if failures:
+                    break
+                continue
         except Exception as e:  # noqa: every generated operation is in range, so an exception is a difference from the model
             failures.append(Failure(f"C07:raised:{name}:{type(e).__name__}:{_where(e)}", {"op": op, "operand_model": M, "error": repr(e)[:300]}))
         if failures:
@@ -303,6 +359,11 @@ def classify(case):
         cl.append("negative-index")
     if any((op["op"] in ("row_mask", "f_mask") and not any(op["bits"])) for op in prog):
         cl.append("empty-selection")
+    if case.get("matrix"):
+        cl.append("two-dimensional")
+        for i, op in enumerate(prog):
+            if op["op"] == "m_cols" and op["how"] in ("mask", "ilist") and any(o["op"] == "m_ravel" for o in prog[i + 1:]):
+                cl.append("fancy-columns-then-ravel")
     nontrivial = view_then and len(prog) >= 2 and (("empty-row" in cl) or ("unequal-rows" in cl))
     return nontrivial, cl
 
@@ -314,7 +375,7 @@ def check(case, stats=None):
 
 # ---------------------------------------------------------------------------------------
 
-def op_strategy():
+def op_strategy(with_matrix=False):
     src = st.integers(0, 20)
     small = st.one_of(st.none(), st.integers(-6, 6))
     step = st.one_of(st.none(), st.sampled_from([1, 2, -1, -2, 3]))
@@ -352,7 +413,22 @@ def op_strategy():
         st.builds(lambda s: {"op": "split", "on": "flat", "src": s}, src),
         st.builds(lambda s, k, n, p: {"op": "literal", "on": "flat", "src": s, "k": k, "n": n, "p": p}, src, st.integers(0, 30), st.integers(0, 30), st.integers(0, 30)),
     ]
-    return st.one_of(*(ragged + flat))
+    matrix = [
+        st.builds(lambda s, i: {"op": "m_row_int", "on": "matrix", "src": s, "i": i}, src, st.integers(0, 30)),
+        st.builds(lambda s, a, b, c: {"op": "m_rows", "on": "matrix", "src": s, "how": "slice", "a": a, "b": b, "s": c}, src, small, small, step),
+        st.builds(lambda s, b: {"op": "m_rows", "on": "matrix", "src": s, "how": "mask", "bits": b}, src, bits),
+        st.builds(lambda s, i: {"op": "m_rows", "on": "matrix", "src": s, "how": "ilist", "idx": i}, src, st.lists(st.integers(0, 30), min_size=1, max_size=5)),
+        st.builds(lambda s, a, b, c: {"op": "m_cols", "on": "matrix", "src": s, "how": "slice", "a": a, "b": b, "s": c}, src, small, small, step),
+        st.builds(lambda s, b: {"op": "m_cols", "on": "matrix", "src": s, "how": "mask", "bits": b}, src, bits),
+        st.builds(lambda s, i: {"op": "m_cols", "on": "matrix", "src": s, "how": "ilist", "idx": i}, src, st.lists(st.integers(0, 30), min_size=1, max_size=5)),
+        st.builds(lambda s, i, j: {"op": "m_cell", "on": "matrix", "src": s, "i": i, "j": j}, src, st.integers(0, 30), st.integers(0, 30)),
+        st.builds(lambda s: {"op": "m_ravel", "on": "matrix", "src": s}, src),
+        st.builds(lambda s: {"op": "m_ravel", "on": "matrix", "src": s}, src),
+        st.builds(lambda s: {"op": "m_copy", "on": "matrix", "src": s}, src),
+        st.builds(lambda s, c, ne: {"op": "m_eq_char", "on": "matrix", "src": s, "c": c, "ne": int(ne)}, src, st.integers(0, 25), st.booleans()),
+        st.builds(lambda s, t: {"op": "m_concat", "on": "matrix", "src": s, "src2": t}, src, src),
+    ]
+    return st.one_of(*(ragged + flat)) if not with_matrix else st.one_of(*(matrix + matrix + ragged[:6] + flat[:4]))
 
 
 @st.composite
@@ -361,6 +437,12 @@ def c07_case(draw, enc, max_rows, max_len, max_steps):
     n = draw(st.one_of(st.integers(0, max_rows), st.integers(1, max_rows), st.just(1)))
     rows = [draw(st.one_of(st.just(""), st.text(alphabet=alphabet, min_size=0, max_size=max_len), st.text(alphabet=alphabet, min_size=1, max_size=3)))
             for _ in range(n)]
+    if draw(st.integers(0, 3)) == 0:
+        # programs on a two-dimensional encoded array (the rows cut to a common length)
+        rows = [r for r in rows if r] or [draw(st.text(alphabet=alphabet, min_size=1, max_size=max_len))]
+        extra = draw(st.integers(2, max(2, max_len)))
+        rows = [(r * extra)[:extra] if draw(st.booleans()) else r for r in rows]
+        return {"enc": enc, "init": rows, "matrix": True, "program": draw(st.lists(op_strategy(True), min_size=1, max_size=max_steps))}
     return {"enc": enc, "init": rows, "program": draw(st.lists(op_strategy(), min_size=1, max_size=max_steps))}
 
 
